@@ -3,12 +3,15 @@
    parseExpressions / parseValue / getOperation / isExpression, as a state
    machine over the Finder model (FinderModel.v).  DEFINITIONS ONLY.
 
-   The code modelled is /repo as it is now (with the repairs D21-D27, D34) plus
+   The code modelled is /repo as it is now (with the repairs D21-D27, D34, D80) plus
    findings/D70 (areInLineIfSubTagsValid rejects a sub tag that is not a
    variable / raw variable / math tag instead of reading it as a VariableTag) and
    findings/D71 (an inline if longer than 65535 units is not a tag) and
    findings/D72 (a '}' that pops the storage of an open loop resets loop_tag to
-   the loop's Parent; without it loop_tag can dangle: heap-use-after-free).
+   the loop's Parent; without it loop_tag can dangle: heap-use-after-free) and
+   findings/D73 (an inline if re-opened by a '}' inside a value is not validated and
+   keeps nothing of the partial attribute scan) and findings/D75 (an inline if whose
+   start id does not fit 8 bits is dropped).
 
    Representation.
    * offsets are [nat] (SizeT; texts shorter than 2^32 units), code units and the
@@ -194,7 +197,10 @@ Section Parse.
       | O => Error EFuel
       | S f =>
         bind (rd 22 offset) (fun ch =>
-          let two (sym yes no : N) := bind (rd 23 (S offset)) (fun nx => Ok ((if N.eqb nx sym then yes else no), offset)) in
+          (* /repo 4703e54 (D80): the second unit of an operator is only looked at inside the expression *)
+          let two (sym yes no : N) :=
+            if S offset <? e then bind (rd 23 (S offset)) (fun nx => Ok ((if N.eqb nx sym then yes else no), offset))
+            else Ok (no, offset) in
           if N.eqb ch sym_Or then two sym_Or op_Or op_BitwiseOr
           else if N.eqb ch sym_And then two sym_And op_And op_BitwiseAnd
           else if N.eqb ch sym_Greater then two sym_Equal op_GreaterOrEqual op_Greater
@@ -418,8 +424,8 @@ Section Parse.
                         (* continue: is_true is cleared when it was used *)
                         if S offset2 <? e then iif_attrs f (S offset2) e false true_offset i' else Ok (i', false))
                     else
-                      (* "Found '}' inside 'True' or 'False'" *)
-                      Ok (mkI (i_off i) (i_len i) true_offset (i_tlen i) (i_foff i) (i_flen i) (i_tid i) (i_fid i), true)))
+                      (* "Found '}' inside 'True' or 'False'": back to the state after the tag was created (findings/D73) *)
+                      Ok (mkI (i_off i) (i_len i) true_offset 0 0 0 (i_tid i) (i_fid i), true)))
                 else if S offset <? e then iif_attrs f (S offset) e is_true true_offset i else Ok (i, false)))
             end)
         else Ok (i, false))
@@ -492,14 +498,13 @@ Section Parse.
       (* findings/D71: a tag longer than the 16-bit fields can describe is dropped *)
       if N.ltb 65535 (N.of_nat d) then Ok (mkS fo 0 rest init false chain) else
       bind (iif_attrs (S (fo - offset)) offset fo false true_offset i1) (fun r =>
-        let i2 := fst r in let repush := snd r in
-        (* storage->Drop(1): the tag itself, or (re-pushed) its last sub tag *)
-        let dropped :=
-          if repush then mkS fo 0 ((init ++ [PIIf i2 c subs]) :: rest) (removelast subs) true chain
-          else mkS fo 0 rest init false chain in
-        let kept (i3 : iifrec) :=
-          if repush then mkS fo 0 ((init ++ [PIIf i3 c subs]) :: rest) subs true chain
-          else mkS fo 0 rest (init ++ [PIIf i3 c subs]) false chain in
+        let i2 := fst r in
+        if snd r then
+          (* findings/D73: re-opened ('}' inside a value): no start ids, nothing validated; scanned again later *)
+          Ok (mkS fo 0 ((init ++ [PIIf i2 c subs]) :: rest) subs true chain)
+        else
+        (* storage->Drop(1): the tag is dropped *)
+        let dropped := mkS fo 0 rest init false chain in
         if negb (N.eqb (i_toff i2) 0) || negb (N.eqb (i_foff i2) 0) then
           let first_offset := N.to_nat (if N.ltb (i_toff i2) (i_foff i2) then i_foff i2 else i_toff i2) + i_off i2 in
           match startid_scan subs first_offset 0 with
@@ -509,10 +514,10 @@ Section Parse.
               if N.ltb (i_toff i2) (i_foff i2)
               then mkI (i_off i2) (i_len i2) (i_toff i2) (i_tlen i2) (i_foff i2) (i_flen i2) (i_tid i2) (t8 id)
               else mkI (i_off i2) (i_len i2) (i_toff i2) (i_tlen i2) (i_foff i2) (i_flen i2) (t8 id) (i_fid i2) in
-            bind (sub_tags_valid i3 subs) (fun ok => if ok then Ok (kept i3) else
-              (* the tag keeps the start id it was given before the test *)
-              Ok (if repush then mkS fo 0 ((init ++ [PIIf i3 c subs]) :: rest) (removelast subs) true chain
-                  else mkS fo 0 rest init false chain))
+            (* findings/D75: more sub tags than the 8-bit start id can count: dropped *)
+            if 255 <? id then Ok dropped else
+            bind (sub_tags_valid i3 subs) (fun ok =>
+              if ok then Ok (mkS fo 0 rest (init ++ [PIIf i3 c subs]) false chain) else Ok dropped)
           end
         else Ok dropped)).
 
@@ -802,17 +807,24 @@ Definition parse_model (w : N) (content : list N) : res (list tag) := parse_gen 
 
 (* ------------------------------------------------------------------ *)
 (* SPECIFICATION of the tree: the offset discipline the renderer relies on.
-   [tstart t, tend t) is the stretch of text render() skips for a tag; a tag list
-   of one array is [wf_tags lo hi]: the tags follow each other inside [lo, hi]
+   [tstart t, tend t) is the stretch of text render() skips for a tag.  A tag list
+   of one array is [wf_tags tl lv lo hi]: the tags follow each other inside [lo, hi]
    (every literal piece render() copies between / after them has a length >= 0)
-   and every tag is well formed itself:
-   * variable: the prefix fits before the name;  math / svar / if: Offset <= EndOffset
+   and every tag is well formed itself.  [tl] is the length of the text, [lv] the
+   Level fields of the enclosing loops (the slots of loops_items_ that exist while
+   the tag is rendered).
+   * variable tag records ([vt_ok]): Offset + Length <= tl; IDLength <> 0 only with a
+     Level of an enclosing loop
+   * variable / raw: the prefix fits before the name;  math: Offset < EndOffset;  svar / if: Offset <= EndOffset
    * svar, loop, if-case: the sub tags lie in order inside the tag (loop: inside
-     [Offset + ContentOffset, EndOffset], in particular ContentOffset <= EndOffset;
+     [Offset + ContentOffset, EndOffset], in particular ContentOffset <= EndOffset; its
+     sub tags see its Level; the group name lies inside the text;
      if: the cases follow each other, each [Offset, EndOffset] holding its sub tags)
-   * inline if: sub tags in order inside [Offset, Offset + Length]; the true / false
-     slices (when set) lie inside the tag; every sub tag lies inside one of the slices
-     ([sub_tags_valid], the very test the parser runs). *)
+   * inline if ([iif_ok], exactly what renderInLineIf uses): the start ids are within
+     SubTags; the sub tags rendered for the true value (the first FalseTagsStartID ones when
+     TrueOffset < FalseOffset, otherwise those from TrueTagsStartID on) are variable / raw / math
+     tags lying in order inside the true slice, the same for the false value; both slices end
+     inside [Offset, Offset + Length]. *)
 Definition tstart (t : tag) : nat :=
   match t with
   | PVar v | PRaw v => v_off v - tpp_VariablePrefixLength
@@ -827,71 +839,123 @@ Definition tend (t : tag) : nat :=
   | PIIf i _ _ => i_off i + N.to_nat (i_len i)
   | PLoop l _ => l_end l + tpp_LoopSuffixLength
   end.
-Definition iif_slices_in (i : iifrec) : Prop :=
-  (i_toff i = 0%N \/ N.to_nat (i_toff i) + N.to_nat (i_tlen i) <= N.to_nat (i_len i)) /\
-  (i_foff i = 0%N \/ N.to_nat (i_foff i) + N.to_nat (i_flen i) <= N.to_nat (i_len i)).
 
-Fixpoint wf_tag (t : tag) {struct t} : Prop :=
-  let wfl := fix wfl (lo hi : nat) (l : list tag) {struct l} : Prop :=
+Definition vt_ok (tl : nat) (lv : list N) (v : vtag) : Prop :=
+  v_off v + N.to_nat (v_len v) <= tl /\ (v_idlen v <> 0%N -> In (v_level v) lv).
+
+(* the tags an inline if may own *)
+Definition leaf_wf (lv : list N) (t : tag) : Prop :=
+  match t with
+  | PVar v | PRaw v => tpp_VariablePrefixLength <= v_off v /\ (v_idlen v <> 0%N -> In (v_level v) lv)
+  | PMath o e _ => o < e
+  | _ => False
+  end.
+Fixpoint leaf_seq (lv : list N) (lo hi : nat) (l : list tag) {struct l} : Prop :=
+  match l with
+  | [] => lo <= hi
+  | x :: r => lo <= tstart x /\ leaf_wf lv x /\ leaf_seq lv (tend x) hi r
+  end.
+Definition iif_ok (lv : list N) (i : iifrec) (subs : list tag) : Prop :=
+  let n := length subs in
+  let ts := i_off i + N.to_nat (i_toff i) in let te := ts + N.to_nat (i_tlen i) in
+  let fs := i_off i + N.to_nat (i_foff i) in let fe := fs + N.to_nat (i_flen i) in
+  let tid := N.to_nat (i_tid i) in let fid := N.to_nat (i_fid i) in
+  (if N.ltb (i_toff i) (i_foff i) then fid <= n /\ leaf_seq lv ts te (firstn fid subs)
+   else tid <= n /\ leaf_seq lv ts te (skipn tid subs)) /\
+  (if N.ltb (i_foff i) (i_toff i) then tid <= n /\ leaf_seq lv fs fe (firstn tid subs)
+   else fid <= n /\ leaf_seq lv fs fe (skipn fid subs)) /\
+  te <= i_off i + N.to_nat (i_len i) /\ fe <= i_off i + N.to_nat (i_len i).
+
+Fixpoint wf_tag (tl : nat) (lv : list N) (t : tag) {struct t} : Prop :=
+  let wfl := fix wfl (lv : list N) (lo hi : nat) (l : list tag) {struct l} : Prop :=
                match l with
                | [] => lo <= hi
-               | x :: r => lo <= tstart x /\ wf_tag x /\ wfl (tend x) hi r
+               | x :: r => lo <= tstart x /\ wf_tag tl lv x /\ wfl lv (tend x) hi r
                end in
   match t with
-  | PVar v | PRaw v => tpp_VariablePrefixLength <= v_off v
-  | PMath o e _ => o <= e
-  | PSVar o e _ subs => o <= e /\ wfl o e subs
-  | PIIf i _ subs => wfl (i_off i) (i_off i + N.to_nat (i_len i)) subs /\ iif_slices_in i /\ sub_tags_valid i subs = Ok true
-  | PLoop l subs => l_off l + N.to_nat (l_coff l) <= l_end l /\ wfl (l_off l + N.to_nat (l_coff l)) (l_end l) subs
+  | PVar v | PRaw v => tpp_VariablePrefixLength <= v_off v /\ (v_idlen v <> 0%N -> In (v_level v) lv)
+  | PMath o e _ => o < e
+  | PSVar o e v subs => o <= e /\ vt_ok tl lv v /\ wfl lv o e subs
+  | PIIf i _ subs => iif_ok lv i subs
+  | PLoop l subs =>
+    l_off l + N.to_nat (l_coff l) <= l_end l /\ vt_ok tl lv (l_set l) /\
+    l_off l + N.to_nat (l_goff l) + N.to_nat (l_glen l) <= tl /\
+    wfl (l_level l :: lv) (l_off l + N.to_nat (l_coff l)) (l_end l) subs
   | PIf o e cases =>
     o <= e /\
     (fix wfc (lo : nat) (cs : list ifcase) {struct cs} : Prop :=
        match cs with
        | [] => lo <= e
-       | PCase co ce _ sb :: r => lo <= co /\ wfl co ce sb /\ wfc ce r
+       | PCase co ce _ sb :: r => lo <= co /\ wfl lv co ce sb /\ wfc ce r
        end) o cases
   end.
-Fixpoint wf_tags (lo hi : nat) (l : list tag) {struct l} : Prop :=
-  match l with
-  | [] => lo <= hi
-  | x :: r => lo <= tstart x /\ wf_tag x /\ wf_tags (tend x) hi r
-  end.
-Fixpoint wf_cases (e lo : nat) (cs : list ifcase) {struct cs} : Prop :=
-  match cs with
-  | [] => lo <= e
-  | PCase co ce _ sb :: r => lo <= co /\ wf_tags co ce sb /\ wf_cases e ce r
-  end.
-(* the whole tree of a text of [len] units *)
-Definition tree_ok (len : nat) (l : list tag) : Prop := wf_tags 0 len l.
+Section WfTags.
+  Variable tl : nat.
+  Fixpoint wf_tags (lv : list N) (lo hi : nat) (l : list tag) {struct l} : Prop :=
+    match l with
+    | [] => lo <= hi
+    | x :: r => lo <= tstart x /\ wf_tag tl lv x /\ wf_tags lv (tend x) hi r
+    end.
+  Fixpoint wf_cases (lv : list N) (e lo : nat) (cs : list ifcase) {struct cs} : Prop :=
+    match cs with
+    | [] => lo <= e
+    | PCase co ce _ sb :: r => lo <= co /\ wf_tags lv co ce sb /\ wf_cases lv e ce r
+    end.
+End WfTags.
+(* the whole tree of a text of [len] units: no enclosing loop at the top *)
+Definition tree_ok (len : nat) (l : list tag) : Prop := wf_tags len [] 0 len l.
 
 (* the same as a boolean test (used by the correspondence run on every generated text) *)
-Definition slices_inb (i : iifrec) : bool :=
-  (N.eqb (i_toff i) 0 || (N.to_nat (i_toff i) + N.to_nat (i_tlen i) <=? N.to_nat (i_len i))) &&
-  (N.eqb (i_foff i) 0 || (N.to_nat (i_foff i) + N.to_nat (i_flen i) <=? N.to_nat (i_len i))).
-Fixpoint wf_tagb (t : tag) {struct t} : bool :=
-  let wfl := fix wfl (lo hi : nat) (l : list tag) {struct l} : bool :=
+Definition inb (x : N) (l : list N) : bool := existsb (N.eqb x) l.
+Definition vt_okb (tl : nat) (lv : list N) (v : vtag) : bool :=
+  (v_off v + N.to_nat (v_len v) <=? tl) && (N.eqb (v_idlen v) 0 || inb (v_level v) lv).
+Definition leaf_wfb (lv : list N) (t : tag) : bool :=
+  match t with
+  | PVar v | PRaw v => (tpp_VariablePrefixLength <=? v_off v) && (N.eqb (v_idlen v) 0 || inb (v_level v) lv)
+  | PMath o e _ => o <? e
+  | _ => false
+  end.
+Fixpoint leaf_seqb (lv : list N) (lo hi : nat) (l : list tag) {struct l} : bool :=
+  match l with
+  | [] => lo <=? hi
+  | x :: r => (lo <=? tstart x) && leaf_wfb lv x && leaf_seqb lv (tend x) hi r
+  end.
+Definition iif_okb (lv : list N) (i : iifrec) (subs : list tag) : bool :=
+  let n := length subs in
+  let ts := i_off i + N.to_nat (i_toff i) in let te := ts + N.to_nat (i_tlen i) in
+  let fs := i_off i + N.to_nat (i_foff i) in let fe := fs + N.to_nat (i_flen i) in
+  let tid := N.to_nat (i_tid i) in let fid := N.to_nat (i_fid i) in
+  (if N.ltb (i_toff i) (i_foff i) then (fid <=? n) && leaf_seqb lv ts te (firstn fid subs)
+   else (tid <=? n) && leaf_seqb lv ts te (skipn tid subs)) &&
+  (if N.ltb (i_foff i) (i_toff i) then (tid <=? n) && leaf_seqb lv fs fe (firstn tid subs)
+   else (fid <=? n) && leaf_seqb lv fs fe (skipn fid subs)) &&
+  (te <=? i_off i + N.to_nat (i_len i)) && (fe <=? i_off i + N.to_nat (i_len i)).
+Fixpoint wf_tagb (tl : nat) (lv : list N) (t : tag) {struct t} : bool :=
+  let wfl := fix wfl (lv : list N) (lo hi : nat) (l : list tag) {struct l} : bool :=
                match l with
                | [] => lo <=? hi
-               | x :: r => (lo <=? tstart x) && wf_tagb x && wfl (tend x) hi r
+               | x :: r => (lo <=? tstart x) && wf_tagb tl lv x && wfl lv (tend x) hi r
                end in
   match t with
-  | PVar v | PRaw v => tpp_VariablePrefixLength <=? v_off v
-  | PMath o e _ => o <=? e
-  | PSVar o e _ subs => (o <=? e) && wfl o e subs
-  | PIIf i _ subs => wfl (i_off i) (i_off i + N.to_nat (i_len i)) subs && slices_inb i &&
-                     match sub_tags_valid i subs with Ok true => true | _ => false end
-  | PLoop l subs => (l_off l + N.to_nat (l_coff l) <=? l_end l) && wfl (l_off l + N.to_nat (l_coff l)) (l_end l) subs
+  | PVar v | PRaw v => (tpp_VariablePrefixLength <=? v_off v) && (N.eqb (v_idlen v) 0 || inb (v_level v) lv)
+  | PMath o e _ => o <? e
+  | PSVar o e v subs => (o <=? e) && vt_okb tl lv v && wfl lv o e subs
+  | PIIf i _ subs => iif_okb lv i subs
+  | PLoop l subs =>
+    (l_off l + N.to_nat (l_coff l) <=? l_end l) && vt_okb tl lv (l_set l) &&
+    (l_off l + N.to_nat (l_goff l) + N.to_nat (l_glen l) <=? tl) &&
+    wfl (l_level l :: lv) (l_off l + N.to_nat (l_coff l)) (l_end l) subs
   | PIf o e cases =>
     (o <=? e) &&
     (fix wfc (lo : nat) (cs : list ifcase) {struct cs} : bool :=
        match cs with
        | [] => lo <=? e
-       | PCase co ce _ sb :: r => (lo <=? co) && wfl co ce sb && wfc ce r
+       | PCase co ce _ sb :: r => (lo <=? co) && wfl lv co ce sb && wfc ce r
        end) o cases
   end.
-Fixpoint wf_tagsb (lo hi : nat) (l : list tag) {struct l} : bool :=
+Fixpoint wf_tagsb (tl : nat) (lv : list N) (lo hi : nat) (l : list tag) {struct l} : bool :=
   match l with
   | [] => lo <=? hi
-  | x :: r => (lo <=? tstart x) && wf_tagb x && wf_tagsb (tend x) hi r
+  | x :: r => (lo <=? tstart x) && wf_tagb tl lv x && wf_tagsb tl lv (tend x) hi r
   end.
-Definition tree_okb (len : nat) (l : list tag) : bool := wf_tagsb 0 len l.
+Definition tree_okb (len : nat) (l : list tag) : bool := wf_tagsb len [] 0 len l.
